@@ -92,7 +92,7 @@ fn directed<E: Entry>(g: &mut Gen, st: &mut Stats) -> CaseResult {
         st.evals(1);
         record(st, ep, ok, &bytes);
     }
-    if consumed_err && bytes.len() >= 2 { st.nontrivial(hash_of(&(E::NAME, &bytes))) }
+    if consumed_err && bytes.len() >= 2 { st.nontrivial(g_codec::registry::stable_hash::<E>(&bytes)) }
     st.sample(hash_of(&bytes), || format!("{} encoding mutated by [{}] -> {}", E::NAME, labels.trim_end(), short_hex(&bytes)));
     Ok(())
 }
@@ -212,19 +212,19 @@ fn raw_input(g: &mut Gen, st: &mut Stats) -> CaseResult {
 fn all_subs() -> Vec<Sub> {
     vec![
         Sub { prop: "C02", name: "raw-input", rule: "uniformly random tapes: first byte selects the start position, the rest is the input, through every entry point (same layout as the libFuzzer target and oversize replays)",
-              kind: Kind::Random { quick: 4_000, thorough: 200_000, tape: 96, f: raw_input } },
+              kind: Kind::Random { quick: 20_000, thorough: 200_000, tape: 96, f: raw_input } },
         Sub { prop: "C02", name: "short-inputs", rule: "every input of length <= 2 (thorough: <= 3) x every entry point (typed decode of ~120 registry types + 6 derived types, every accessor, iterators, skip, tokens, tokenizer past its end, datatype, probe, Size) ; for length <= 1 also from set_position in {mid, len, len+1, MAX-1, MAX}. Oracle per call: no panic, steps <= 64*len+1024, peak heap <= 4KiB + size_of::<T> + 128*len, position <= max(len, start), borrowed results inside the input; evaluations count calls; non-trivial = input non-empty",
               kind: Kind::Enumerate { quick: 1 + 256 + 65536, thorough: 1 + 256 + 65536 + (1 << 24), f: short_inputs, complete_quick: true, complete_thorough: true } },
         Sub { prop: "C02", name: "heads", rule: "all 256 initial bytes x 8 argument patterns at the width the byte announces (zeros, ones, 7f.., 1, 80.., 24, 256, 100000) x 5 tails x every entry point",
               kind: Kind::Enumerate { quick: 256 * 8 * 5, thorough: 256 * 8 * 5, f: heads, complete_quick: true, complete_thorough: true } },
         Sub { prop: "C02", name: "type-directed", rule: "valid encoding of a generated value of a registry type, 1-3 structure-aware mutations (truncate, bit flip, extreme/inflated head argument, major swap, inserted break, duplicate, indefinite, reserved ai, ...), decoded as that type and 8 random other entry points, sometimes from an arbitrary position; non-trivial = the own type rejects the mutant and it is >= 2 bytes; distinct by (type, bytes)",
-              kind: Kind::Random { quick: 300_000, thorough: 10_000_000, tape: 1024, f: type_directed } },
+              kind: Kind::Random { quick: 1_500_000, thorough: 10_000_000, tape: 1024, f: type_directed } },
         Sub { prop: "C02", name: "mutated-trees", rule: "random bytes, well-formed trees and mutated trees through every entry point; non-trivial = some entry rejects",
-              kind: Kind::Random { quick: 6_000, thorough: 300_000, tape: 1024, f: mutated_trees } },
+              kind: Kind::Random { quick: 30_000, thorough: 300_000, tape: 1024, f: mutated_trees } },
         Sub { prop: "C02", name: "histories", rule: "1-8 decoder calls on one buffer with set_position to {0, mid, len, len+1, MAX-1, MAX} interleaved: each call may not move the position beyond max(len, position before)",
-              kind: Kind::Random { quick: 100_000, thorough: 5_000_000, tape: 1024, f: histories } },
+              kind: Kind::Random { quick: 500_000, thorough: 5_000_000, tape: 1024, f: histories } },
         Sub { prop: "C02", name: "drops", rule: "arrays/maps of u8 with a planted non-u8 element, wrong length, truncation or mutation, definite and indefinite, decoded as 21 shapes of a drop-counting element ([T;N], nested arrays, Vec, VecDeque, LinkedList, heap, sets, maps, tuples, Option, Result, Range, derived struct): live set empty and no double drop afterwards",
-              kind: Kind::Random { quick: 100_000, thorough: 5_000_000, tape: 256, f: drops } },
+              kind: Kind::Random { quick: 500_000, thorough: 5_000_000, tape: 256, f: drops } },
     ]
 }
 
